@@ -282,7 +282,11 @@ func judge(ctx *core.Ctx, recs []*Record, t *tally) error {
 		n := t.counts[key]
 		t.mu.Unlock()
 		if n <= 2 {
-			what = fmt.Sprintf("%s | source {%s} calls %v, source %s (%s), target %s %s", what, g, rec.job.Calls, rec.SrcEnc, rec.job.Src.Via, rec.job.Dst.Version, rec.DstEnc)
+			gs := g.String()
+			if len(gs) > 400 {
+				gs = gs[:400] + " ..."
+			}
+			what = fmt.Sprintf("%s | source {%s} calls %v, source %s (%s), target %s %s", what, gs, rec.job.Calls, rec.SrcEnc, rec.job.Src.Via, rec.job.Dst.Version, rec.DstEnc)
 			ctx.Violation(key, what, rec.job)
 		}
 	}
@@ -397,6 +401,21 @@ func run(ctx *core.Ctx) error {
 	if err := wait(); err != nil {
 		return err
 	}
+
+	// the bound on chain lengths: design check with a small bound, the real constant on the real code
+	if _, err := ctx.MustHold(core.TLCOpts{Dir: "graph", Module: "MC_Copier", Cfg: "MC_Copier_depth.cfg", Workers: 8, Timeout: ctx.Dur(8, 20), XssMB: 512,
+		Constants: "MaxChain = 3, N = 4: chains of 2, 3 and 4 references"}); err != nil {
+		return err
+	}
+	djobs := depthJobs(ctx)
+	drecs, err := executeAll(djobs)
+	if err != nil {
+		return err
+	}
+	if err := judge(ctx, drecs, t); err != nil {
+		return err
+	}
+	total += len(djobs)
 
 	// seeded larger graphs
 	rjobs := randomJobs(ctx)
